@@ -127,3 +127,92 @@ func TestVerifC12Backlog(t *testing.T) {
 		c.Close()
 	}
 }
+
+
+// TestVerifC12Backlog2: a stream whose application does not read (tens of MiB buffered) and a second stream with a
+// parked reader; then one connection ends. Everything must be torn down: sessions closed, every connection closed, the
+// parked reader back with an error, and what was buffered remains a prefix of what was written.
+func TestVerifC12StalledConsumer(t *testing.T) {
+	log.SetOutput(io.Discard)
+	log.SetLevel(log.PanicLevel)
+	res := kit.NewResult()
+	defer func() { res.Save(true) }()
+	for round, mib := range []int{3, 20} {
+		if kit.Thorough() && round == 1 {
+			mib = 40
+		}
+		vn := kit.NewVNet()
+		var key [32]byte
+		mk := func() *Session {
+			o, _ := MakeObfuscator(EncryptionMethodPlain, key)
+			return MakeSession(6, SessionConfig{Obfuscator: o, MsgOnWireSizeLimit: 16401, InactivityTimeout: time.Hour})
+		}
+		c, s := mk(), mk()
+		var links []*kit.VLink
+		for i := 0; i < 2; i++ {
+			l := vn.NewLink(false, false)
+			links = append(links, l)
+			c.AddConnection(common.NewTLSConn(l.End(0)))
+			s.AddConnection(common.NewTLSConn(l.End(1)))
+		}
+		st1, _ := c.OpenStream()
+		st2, _ := c.OpenStream()
+		st1.Write([]byte{1})
+		st2.Write([]byte{2})
+		a1, err1 := s.Accept()
+		a2, err2 := s.Accept()
+		if err1 != nil || err2 != nil {
+			t.Fatal("accept failed")
+		}
+		slow, parked := a1.(*Stream), a2.(*Stream)
+		if slow.id != st1.id {
+			slow, parked = parked, slow
+		}
+		one := make([]byte, 1)
+		slow.Read(one)
+		parked.Read(one)
+		// the consumer of stream 1 stalls: everything the client writes piles up in its receive buffer
+		chunk := make([]byte, 1<<20)
+		for i := 0; i < mib; i++ {
+			for k := range chunk {
+				chunk[k] = byte(i + k)
+			}
+			if _, err := st1.Write(chunk); err != nil {
+				res.Violate("write-refused", fmt.Sprintf("write %d MiB into a stalled stream failed: %v", i, err), nil)
+				break
+			}
+		}
+		rd := make(chan error, 1)
+		go func() { _, err := parked.Read(make([]byte, 16)); rd <- err }()
+		time.Sleep(100 * time.Millisecond) // let the backlog arrive
+		links[1].End(0).Close()                // one connection ends (EOF for the server)
+		verdict := ""
+		select {
+		case <-rd:
+		case <-time.After(5 * time.Second):
+			verdict = "the reader parked on the other stream was not woken"
+		}
+		deadline := time.Now().Add(5 * time.Second)
+		for time.Now().Before(deadline) && !(s.IsClosed() && c.IsClosed() && links[0].ClosedBy(0) && links[0].ClosedBy(1)) {
+			time.Sleep(10 * time.Millisecond)
+		}
+		if verdict == "" && !(s.IsClosed() && c.IsClosed()) {
+			verdict = fmt.Sprintf("sessions closed: server=%v client=%v", s.IsClosed(), c.IsClosed())
+		}
+		if verdict == "" && !(links[0].ClosedBy(0) && links[0].ClosedBy(1)) {
+			verdict = fmt.Sprintf("the surviving connection is still open (client end closed=%v, server end closed=%v)", links[0].ClosedBy(0), links[0].ClosedBy(1))
+		}
+		res.Count(fmt.Sprintf("stalled-%dMiB", mib), true)
+		if verdict != "" {
+			res.Violate("teardown-stuck:stalled-consumer", fmt.Sprintf("%d MiB unread on one stream, then a connection ended: %s after 5 s", mib, verdict), map[string]any{"unread_mib": mib})
+		}
+		if round == 0 {
+			res.Sample(map[string]any{"unread_mib": mib, "torn_down": verdict == ""}, 1)
+		}
+		for _, l := range links {
+			l.Fail()
+		}
+		c.Close()
+		s.Close()
+	}
+}
